@@ -115,8 +115,8 @@ PROPS = {
         rule="for every reached state: forward+backward scans, held iterators re-walked, all single cursor calls; for every new layout signature all call sequences up to cursor-len over {first,last,seek,seek_ge,seek_gt,seek_le,seek_lt x 9 targets,next,prev}",
         assumptions=E2_ASSUME + ["full-length cursor walks run on the first cursor-cap distinct layout signatures per plan item, single calls everywhere"],
         stages=[dict(name="hist", driver="hist", flavour="asan", args=["--alphabet", "iter", "--oracle", "iter,cursor"],
-                     quick=["--plan", c07_plan("quick"), "--cursor-len", "3", "--cursor-cap", "2"],
-                     thorough=["--plan", c07_plan("thorough"), "--cursor-len", "4", "--cursor-cap", "6"])],
+                     quick=["--plan", c07_plan("quick"), "--cursor-len", "3", "--cursor-cap", "6"],
+                     thorough=["--plan", c07_plan("thorough"), "--cursor-len", "4", "--cursor-cap", "4"])],
     ),
     "C13": dict(
         level="model_checking",
@@ -265,7 +265,7 @@ PROPS["C04"] = dict(
     technique="(a) crash-point x crash-image enumeration with cuts inside every log fragment, marker keys make a half-applied batch visible; (b) stateless schedule exploration of group commit vs snapshot/iterator readers with a linearizability oracle over multi-key batches",
     rule="(a) histories with 1/2/3-update batches (thorough: a 700-update batch over 4 log blocks) x every journal index x {max, torn cuts} images: recovered contents = fold of whole batches; (b) scenarios D2, D2b, D3: every schedule within the bound: every snapshot read / scan sees both keys of a batch or neither; distinct = distinct outcomes",
     distinct_key="outcomes", assumptions=E3_ASSUME + E1_ASSUME,
-    stages=[e3_stage("C04", 2, 3, "B1", "B1;B1,snappy=1;B1,reuse=1", classes=0x22),
+    stages=[e3_stage("C04", 2, 3, "B1", "B1;B1,snappy=1", classes=0x22),
             dict(name="mc", driver="mc", flavour="asan", args=["--prop", "C04"],
                  quick=["--scenarios", "D2,D2b,D3", "--bound", "2"], thorough=["--scenarios", "D2,D2b,D3", "--bound", "3"])],
 )
@@ -277,7 +277,9 @@ PROPS["C12"] = dict(
     assumptions=["fault model: the k-th intercepted call fails with the errno (one-shot) or it and every later call of the same kind fail (persistent); a short write/read transfers 0/1/len-1 bytes and the next call of that kind fails", "metadata probes (access, stat, fstat, fcntl, opendir) are not fault sites: C12 does not list them"] + E3_ASSUME[2:],
     stages=[dict(name="fault", driver="fault", flavour="asan",
                  quick=["--cfgs", "B1;B1,reuse=1", "--len", "2", "--scripted", "1"],
-                 thorough=["--cfgs", "B1;B1,reuse=1;B1,snappy=1,mmap=0", "--len", "3", "--scripted", "1", "--persistent", "1", "--wide", "1"]),
+                 thorough=["--cfgs", "B1;B1,reuse=1", "--len", "3", "--scripted", "1", "--persistent", "1"]),
+            dict(name="fault-wide", driver="fault", flavour="asan", tiers=["thorough"], weight=0.6,
+                 thorough=["--cfgs", "B1,snappy=1,mmap=0", "--len", "2", "--scripted", "1", "--wide", "1", "--persistent", "1"]),
             dict(name="fault2", driver="fault", flavour="asan", tiers=["thorough"],
                  thorough=["--cfgs", "B1", "--len", "1", "--scripted", "0", "--depth2", "1"])],
 )
@@ -315,7 +317,7 @@ PROPS["C19"] = dict(
 ENGINES["repair"] = "E2: state enumeration x metadata damage, real ldb_repair/ldb_open vs independent decoders of the surviving files"
 
 PROPS["C20"] = dict(
-    level="model_checking",
+    level="model_checking", deadline_thorough=1200,
     technique="exhaustive enumeration of lifecycle call sequences (open / close / refused opens / foreign-process lock attempts) and of backup/copy points over operation histories on the real code over a VFS with POSIX record-lock semantics",
     rule="all sequences of length <= locklen over {open, close, second open, open(error_if_exists), open(other comparator), foreign-process lock attempt}: the foreign process gets the lock iff no handle is open; ldb_backup after every history up to the given length over 7 ops (background work drained, and with the last operation's flush still pending) + 3 scripted multi-level layouts: the copy opens independently and equals the source model at that moment, later writes/compactions of the source leave it unchanged, the source stays right; ldb_copy of the closed database likewise; ldb_destroy leaves exactly 6 foreign entries; refused opens leave every database file byte-identical",
     assumptions=E2_ASSUME[:3] + ["fcntl(F_SETLK) is modelled with POSIX semantics (per process, closing any descriptor of the file drops the lock); the foreign process is simulated by the VFS"],
@@ -347,7 +349,7 @@ PROPS["C13"]["stages"].append(e3_stage("C13", 2, 3, "B1", "B1;B1,reuse=1", neste
 PROPS["C13"]["rule"] += "; crash stage: every journal index x {min, max, dir-ahead} images of short histories: after recovery completes the directory holds exactly the live files (no orphan table, stale MANIFEST or temp file)"
 
 PROPS["C20"]["stages"].append(dict(name="mc-backup", driver="mc", flavour="asan", args=["--prop", "C20"],
-                                   quick=["--scenarios", "D12,D13", "--bound", "2"], thorough=["--scenarios", "D12,D13", "--bound", "3"]))
+                                   quick=["--scenarios", "D12,D13", "--bound", "2"], thorough=["--scenarios", "D13,D12", "--bound", "3"]))
 PROPS["C20"]["rule"] += "; concurrent stage: ldb_backup racing a batch writer, a flush and a memtable switch (scenarios D12, D13), every schedule within the deviation bound: the backup opens through an independent handle and equals the database at ONE point inside the backup call (linearizability oracle, every batch wholly in or out)"
 PROPS["C20"]["assumptions"] = PROPS["C20"]["assumptions"] + E1_ASSUME[:3]
 
